@@ -453,6 +453,9 @@ class BinnedTrees(Iterable[AngularTree]):
             new._patch = patch
             new.binning = binning
 
+            # the binning file marks the cached trees as valid: remove it first,
+            # otherwise an interrupted rebuild pairs the old marker with new trees
+            new.binning_file.unlink(missing_ok=True)
             with new.trees_file.open(mode="wb") as f:
                 trees = build_trees(patch, binning, leafsize=leafsize)
                 pickle.dump(trees, f)
